@@ -329,6 +329,46 @@ class Tr:
         return default_shape, v
 
 
+def _bound_names(st):
+    """names a module-level statement binds"""
+    out = []
+    if isinstance(st, (ast.FunctionDef, ast.AsyncFunctionDef, ast.ClassDef)):
+        out.append(st.name)
+    elif isinstance(st, (ast.Import, ast.ImportFrom)):
+        for a in st.names:
+            out.append((a.asname or a.name).split(".")[0])
+    else:
+        for node in ast.walk(st):
+            if isinstance(node, ast.Name) and isinstance(node.ctx, (ast.Store, ast.Del)):
+                out.append(node.id)
+            elif isinstance(node, (ast.Global, ast.Nonlocal)):
+                out.extend(node.names)
+    return out
+
+
+def _module_bindings(tree, fn):
+    """`ideal_source` is bound exactly once at module level (this def), `np` exactly once (import numpy as np); no function
+    of the module declares either name global"""
+    n_fn = n_np = 0
+    for st in tree.body:
+        names = _bound_names(st) if not isinstance(st, (ast.FunctionDef, ast.AsyncFunctionDef, ast.ClassDef)) else [st.name]
+        n_fn += names.count(FUNC)
+        n_np += names.count("np")
+        if "np" in names and not (isinstance(st, ast.Import) and any(a.name == "numpy" and a.asname == "np" for a in st.names)):
+            raise TranslateError("module-level statement `%s` binds np" % _src(st))
+        if isinstance(st, (ast.FunctionDef, ast.AsyncFunctionDef, ast.ClassDef)):
+            for node in ast.walk(st):
+                if isinstance(node, (ast.Global, ast.Nonlocal)) and (FUNC in node.names or "np" in node.names):
+                    raise TranslateError("`%s` in %s" % (_src(node), st.name))
+    if n_fn != 1:
+        raise TranslateError("%s is bound %d times at module level" % (FUNC, n_fn))
+    if n_np != 1:
+        raise TranslateError("np is bound %d times at module level (expected: import numpy as np)" % n_np)
+    for node in ast.walk(fn):
+        if isinstance(node, ast.Name) and isinstance(node.ctx, ast.Store) and node.id in ("np", "abs", FUNC):
+            raise TranslateError("%s re-binds %s locally" % (FUNC, node.id))
+
+
 def generate(path=None):
     path = path or UTILS()
     src = open(path).read()
@@ -337,6 +377,7 @@ def generate(path=None):
     fn = py2coq.find_function(tree, FUNC)
     if not isinstance(fn, ast.FunctionDef):
         raise TranslateError("%s is not a plain function" % FUNC)
+    _module_bindings(tree, fn)
     default_shape, v = Tr().function(fn)
     return ("From Coq Require Import Reals String.\nFrom BL Require Import Model.IdealSource.\nOpen Scope R_scope.\n"
             "(* generated from %s::%s by harness/idealslices.py *)\n"
